@@ -54,7 +54,10 @@ PoolDef == <<
   P(<<2>>, 2, LdapResult(15, 6, <<>>, <<>>, <<>>), <<>>, <<>>, 0),
   \* 11: SearchResultDone id 3 with a paged-results control, minimal encoding
   P(<<3>>, 3, LdapResult(5, 0, <<>>, <<111, 107>>, <<>>), << <<Ctl(OidPR, FALSE, FALSE, TRUE, PagedVal)>> >>,
-    <<[oid |-> OidPR, crit |-> FALSE, hasval |-> TRUE, val |-> PagedVal]>>, 0)
+    <<[oid |-> OidPR, crit |-> FALSE, hasval |-> TRUE, val |-> PagedVal]>>, 0),
+  \* 12: CompareResponse id 2, outer length in long form with four length octets (30 84 00 00 00 0c ..., the form Active
+  \*     Directory uses for every length)
+  P(<<2>>, 2, LdapResult(15, 5, <<>>, <<>>, <<>>), <<>>, <<>>, 4)
 >>
 NPool == Len(PoolDef)
 PoolT(i) == PoolDef[i].t
